@@ -196,3 +196,27 @@ def gen_schedule(rng: random.Random, n_ticks: int, with_requests: bool = True) -
             elif x < 0.37:
                 ops.append(["force", rng.random()])
     return ops
+
+
+def gen_edit_script(rng: random.Random) -> list:
+    """Edit script for a live edit (see harness.interp_run.apply_edit_script)."""
+    g = Gen(rng, max_depth=0, max_lines=2, features={"mark", "wait", "cmd"})
+    g.mark_no = 200 + rng.randrange(100)
+    script: list = []
+    for _ in range(rng.choice([1, 1, 1, 2])):
+        x = rng.random()
+        if x < 0.5:
+            g.lines = []
+            g.instruction(0, 1, False, False)
+            script.append(["append", g.lines[0]])
+        elif x < 0.75:
+            g.lines = []
+            g.instruction(0, 1, False, False)
+            script.append(["change", rng.random(), g.lines[0]])
+        elif x < 0.9:
+            g.lines = []
+            g.instruction(0, 1, False, False)
+            script.append(["insert", rng.random(), g.lines[0]])
+        else:
+            script.append(["delete", rng.random()])
+    return script
